@@ -582,12 +582,18 @@ def _impl_plain(cases):
         dt = np.dtype(dt)
         vals = [[float(b), float(d)] for b, d in P] if dt.kind == "f" else [[int(b), int(d)] for b, d in P]
         return np.array(vals, dtype=dt).reshape(-1, 2) if P else np.array([], dtype=dt)
+    # The plain cases of a batch share one interpreter, so what one of them leaves behind can show in a later one,
+    # and such a failure does not reproduce from its replay file.  Overwriting returned objects is therefore done
+    # where it reproduces - in the call histories above (own interpreter each) - and switched off for this batch.
+    real_scribble = history.scribble
     c01._arr = arr
+    history.scribble = lambda *a, **k: None
     try:
         ob = c01.impl_run(cases)
+        ow = c02.impl_run([_w_case(c) for c in cases])
     finally:
         c01._arr = real_arr
-    ow = c02.impl_run([_w_case(c) for c in cases])
+        history.scribble = real_scribble
     return [{"b": b, "w": w} for b, w in zip(ob, ow)]
 
 
@@ -791,7 +797,8 @@ def shrink_candidates(c):
                 drop = {"xS": ("xS", "xT", "xw", "xflavour"), "repS": ("repS", "repT")}.get(k, (k,))
                 d["seq"] = [{a: b for a, b in s.items() if a not in drop or (s.get("fault") and a in ("xS", "xT"))}
                             for s in c["seq"]]
-                yield d
+                if d["seq"] != c["seq"]:
+                    yield d
         return
     if c.get("xS") is not None or c.get("xT") is not None:
         # without the extra columns: then it is not an effect of them
